@@ -81,7 +81,9 @@ def run_one(job):
                 # a runaway allocation must fail fast instead of exhausting the machine
                 resource.setrlimit(resource.RLIMIT_AS, (4 << 30, 4 << 30))
             p = subprocess.run(args, cwd=d, input=b"", stdout=subprocess.PIPE, stderr=subprocess.PIPE, timeout=WALL, preexec_fn=limit_memory)
-            return {"rc": p.returncode, "out": p.stdout.decode("utf-8", "replace")[-400:], "err": p.stderr.decode("utf-8", "replace")[-300:], "timeout": False}
+            out = p.stdout.decode("utf-8", "replace")
+            last = out.strip().split("\n")[-1] if out.strip() else ""
+            return {"rc": p.returncode, "out": out[-400:], "last": last, "err": p.stderr.decode("utf-8", "replace")[-300:], "timeout": False}
         except subprocess.TimeoutExpired as e:
             return {"rc": None, "out": (e.stdout or b"").decode("utf-8", "replace")[-200:], "err": "", "timeout": True}
     finally:
@@ -94,7 +96,7 @@ def outcome(r, mode):
     if r["rc"] != 0:
         return f"exit {r['rc']}"
     try:
-        last = json.loads(r["out"].strip().split("\n")[-1])
+        last = json.loads(r.get("last") or r["out"].strip().split("\n")[-1])
     except (ValueError, IndexError):
         return "no result line"
     if mode == "playground":
@@ -130,6 +132,10 @@ def run(tier, seed):
             body = src.replace("\n", "\n  ")
             tsrc = f"fun target() {{\n  {body}\n}}\ntest tt {{ target() }}\n" if not src.startswith("fun ") and "\nfun " not in src and "method " not in src else src + "\nfun target() { 1 }\ntest tt { target() }\n"
             jobs.append((f"C25 sandboxed-test: {name}", "test", tsrc, tsrc.index("target")))
+    # the budget is per run, not per test: thousands of tests that each spin must still end quickly
+    many = "fun spin(): Int {\n  let i = 0\n  while True { i += 1 }\n  i\n}\n" + "".join(f"test t{k} {{ spin() }}\n" for k in range(3000))
+    jobs.append(("C25 playground: 3000 tests that each spin share one step budget", "playground", many, None))
+    jobs.append(("C25 sandboxed-test: 3000 tests that each spin share one step budget", "test", many, many.index("spin")))
     results = pmap(run_one, jobs, workers=8)
     limited = 0
     for (key, mode, src, off), r in zip(jobs, results):
@@ -143,7 +149,7 @@ def run(tier, seed):
             ck.sample({"case": key, "program": src[:200], "outcome": oc})
         if oc == "timeout" or oc.startswith("exit") or oc == "no result line":
             ck.fail(key, f"{key}: the sandboxed run did not finish by itself: {oc} {r['err'][-160:]!r}",
-                    {"cmd": "garden playground-run p.gdn" if mode == "playground" else f"garden sandboxed-test p.gdn {off}", "src": src, "real": r})
+                    {"cmd": "garden playground-run p.gdn" if mode == "playground" else f"garden sandboxed-test p.gdn {off}", "src": src, "real": {k: v for k, v in r.items() if k != "last"}})
     vacuity(limited >= 10, f"only {limited} runs ended with a resource limit")
     ck.assumptions += [f"wall-clock limit {WALL} s and a 4 GiB address-space limit per run on this machine; the tick budget of the sandbox is 100000 steps and its stack limit 1000 frames"]
     return ck.finish(rule="diverging and resource-hungry programs (loops, direct / mutual / closure / method recursion, nested values grown to the budget then printed or compared, doubling strings, growing lists, blocking built-ins) in playground-run and in sandboxed-test; every case distinct; "
